@@ -2,7 +2,7 @@ from dataclasses import dataclass
 
 from mypy.nodes import ComparisonExpr, Expression
 
-from refurb.checks.common import get_mypy_type, is_bool_literal, is_same_type, stringify
+from refurb.checks.common import get_mypy_type, is_bool_literal, is_same_type, stringify_operand
 from refurb.error import Error
 
 
@@ -53,13 +53,13 @@ def check(node: ComparisonExpr, errors: list[Error]) -> None:
             operands=[lhs, rhs],
         ):
             if is_bool_literal(lhs) and is_bool_variable(rhs):
-                expr = stringify(rhs)
+                expr = stringify_operand(rhs, oper)
 
                 old = f"{lhs.name} {oper} {expr}"
                 new = expr if is_truthy(oper, lhs.name) else f"not {expr}"
 
             elif is_bool_variable(lhs) and is_bool_literal(rhs):
-                expr = stringify(lhs)
+                expr = stringify_operand(lhs, oper)
 
                 old = f"{expr} {oper} {rhs.name}"
                 new = expr if is_truthy(oper, rhs.name) else f"not {expr}"
